@@ -10,7 +10,9 @@ go test -tags verif -vet=off -count=1 -run '^$' ./... >/dev/null
 # race-instrumented packages (only the monitors that use the race detector)
 RACE_PKGS=$(python3 -c "
 import json
-c=json.load(open('../checks.json'))
+import glob
+c={}
+[c.update(json.load(open(p))) for p in glob.glob('p*/check.json')]
 print(' '.join(sorted({'./'+v['pkg'] for v in c.values() if v.get('race')})))")
 if [ -n "$RACE_PKGS" ]; then go test -race -tags verif -vet=off -count=1 -run '^$' $RACE_PKGS >/dev/null; fi
 echo setup ok
